@@ -103,7 +103,23 @@ def function_level(ctx, rep):
     return len(cases), exhaustive_scopes, hist
 
 
+def mesh_expand_specs(ctx):
+    """Runs with options['search_mesh_expand'] > 0: the mesh is also enlarged after successful searches (outside poll steps), so the
+    poll that follows has to pick up the new mesh size."""
+    from .. import gen
+    rng = ctx.sub_rng("c14expand")
+    specs = []
+    for _ in range(6 if ctx.quick else 40):
+        sp = gen.make_spec(rng, D=rng.choice([1, 2, 2, 3]), mode=rng.choice(["det", "det", "decl"]), geom=rng.choice(["box", "tight", "unbounded"]), cons=None,
+                           opt_loc=rng.choice(["inside", "on_bound"]), target=rng.choice(["quad", "abs"]))
+        sp["options"] = {"n_search": 32, "max_fun_evals": (sp["D"] + 55) if sp["mode"] == "det" else 100, "search_mesh_expand": rng.choice([1, 1, 2]), "noise_final_samples": 0}
+        specs.append(sp)
+    return specs
+
+
 def run_level(ctx, rep):
+    if not getattr(ctx, "_replaying", False):
+        runlevel.with_extra(ctx, "c14expand", lambda: mesh_expand_specs(ctx))
     traces = runlevel.get_pool(ctx)
     stats = {"polls": 0, "poll_calls": 0, "runs": 0, "nmax_gt_1": 0}
     preqs, owners = [], []
@@ -114,9 +130,12 @@ def run_level(ctx, rep):
         D = t["hdr"]["D"]
         stats["runs"] += 1
         cur = None
+        last_iter = None
         for k, e in ev:
+            if k == "ITER":
+                last_iter = e
             if k == "DIRS":
-                cur = {"e": e, "calls": []}
+                cur = {"e": e, "calls": [], "iter": last_iter}
                 stats["polls"] += 1
                 Bs = np.array(e["B"]) * np.array(e["poll_scale"])
                 rows = [[Fraction(float(np.round(v, 9))).limit_denominator(10 ** 6) for v in r] for r in Bs]
@@ -144,6 +163,13 @@ def run_level(ctx, rep):
             rep.violation("signed_unit", SITE, f"traced run, default mesh ratio: directions are not signed coordinate directions; {tag}", case)
         if len(cur["calls"]) > 2 * D:
             rep.violation("at_most_2n", "bads.py:_poll_step_", f"{len(cur['calls'])} points polled in one poll step (D={D}); {tag}", case)
+        # the mesh size the poll works with must be the run's current mesh size (poll_mesh_multiplier ** mesh_size_integer, as reported)
+        if cur["iter"] is not None:
+            true_ms = float(t["hdr"]["opts"]["poll_mesh_multiplier"]) ** cur["iter"]["msi"]
+            if e["ms"] != true_ms:
+                rep.violation("poll_uses_current_mesh", "bads.py:_poll_step_", f"the poll step scales its directions by {e['ms']} while the run's mesh size is {true_ms} "
+                              f"(mesh_size_integer {cur['iter']['msi']}); {tag}", case)
+                continue
         used = []
         u = np.array(e["u"])
         tol = 1e-6 + (0.5 * e["sms"] / e["ms"] if t["hdr"]["opts"].get("force_poll_mesh") else 0.0)
@@ -181,6 +207,7 @@ def replay(ctx, data):
     if c.get("kind") == "poll_run":
         from .. import tracer
         ctx._pool = [tracer.run_traced(c["spec"])]
+        ctx._replaying = True
         run_level(ctx, rep)
     else:
         function_level(ctx, rep)
